@@ -151,6 +151,10 @@ def check_helper(case, ctx):
         kw["knot_list"] = list(base)
     if mode in ("add", "list+add"):
         addl = [val(i) for i in case["add"]]
+        if case["add"][0] % 3 == 0:
+            addl.append(addl[0])          # the same additional knot named twice ...
+        if case["add"][0] % 3 == 1 and base:
+            addl.append(base[len(base) // 2])          # ... or one that is in the list already: the result is the same set of knots
         kw["add_knot_list"] = list(addl)
         if mode == "add":
             kw["knot_list"] = list(kv[p:len(kv) - p])
